@@ -15,8 +15,11 @@ def check(chk, thorough=False):
     chk.run('C08.a', 'R-ORDER', 'the CRC update precedes the encode which precedes the one transmission site, with nothing in between that can change the bundle', lambda ob: c08a(tree, ob), floor=3)
     chk.run('C08.b', 'R-ORDER', 'on receive the CRC gate (check, return on failure) dominates the seen-set add, every recorded action, the chain, reporting and forwarding', lambda ob: c08b(tree, ob), floor=6)
     chk.run('C08.c', 'sibling', 'update_crc and check_crc compute the CRC the same way (zeroed field of the right width, whole block, same algorithm table); both all-block loops cover primary and every canonical block', lambda ob: c08c(tree, ob), floor=8)
-    chk.run('C08.e', 'R-SCHEMA', 'the decode is faithful to the CBOR type of every item (integer, byte string and endpoint ID fields refuse items of another type), so the re-encoding the CRC check signs is the block that arrived', lambda ob: c08e(tree, ob), floor=28)
+    chk.run('C08.e', 'R-SCHEMA', 'the decode is faithful to the CBOR type of every item (integer, byte string and endpoint ID fields refuse items of another type), so the re-encoding the CRC check signs is the block that arrived', lambda ob: c08e(tree, ob), floor=29)
     chk.run('C08.f', 'R-TRUTH', 'decoding keeps every bit of flags and values, so the re-encoding that the CRC check signs is the block that arrived (= C02.e)', lambda ob: __import__('sa.props.c02', fromlist=['c02e']).c02e(tree, ob), floor=20)
+    chk.run('C08.g', 'R-NOPATH', 'a block that cannot be decoded fails the bundle instead of vanishing from it (list decoder does not skip; every block indexed) (= C12.j)', lambda ob: __import__('sa.props.c12', fromlist=['c12j']).c12j(tree, ob), floor=2)
+    chk.run('C08.h', 'R-GUARD', 'the received block data is what the CRC check sees: parsed payloads are not written back over it (= C02.d)', lambda ob: __import__('sa.props.c02', fromlist=['c02d']).c02d(tree, ob), floor=3)
+    chk.run('C08.i', 'sibling', 'the generic layer decodes what arrived: a field is stored when an item was consumed (null is a value), enumerations do not fall back, nothing undecodable is skipped (= C02.c)', lambda ob: __import__('sa.props.c02', fromlist=['c02c']).c02c(tree, ob), floor=10)
     chk.run('C08.d', 'R-SCHEMA', 'CRC types 1/2 are CRC-16/X.25 big-endian 2 octets and CRC-32C big-endian 4 octets; the CRC field exists iff the type is non-zero', lambda ob: c08d(tree, ob), floor=6)
 
 
@@ -412,6 +415,34 @@ def c08e(tree, ob):
     consts = {'EidField.TypeCode.dtn': 1, 'EidField.TypeCode.ipn': 2, 'self.TypeCode.dtn': 1, 'self.TypeCode.ipn': 2}
     arg = m.args.args[2].arg
     eid_foreign = [b'\x01\x00', [True, '//a/'], [1.0, '//a/'], [1, True], [1, False], [1, 1.5], [1, b'x'], [1, [1]], [2, b'\x01\x02'], [2, [True, 2]], [2, [1.0, 2]], [2, '12'], [2.0, [1, 2]]]
+    # the same at the level of whole blocks: CBOR has several encodings for one value (a tag 2 bignum or a non-shortest head for
+    # a small integer).  Decoded they are indistinguishable, re-encoded they take the deterministic form the sender's CRC was
+    # computed over.  RFC 9171 4.1 prescribes the deterministic encoding; the bundle decoder refuses input that differs from
+    # the encoding of the items it decoded from it, before anything is dissected.
+    if not tree.has_func(BUNDLE, 'Bundle.dissect'):
+        ob.violate(BUNDLE, 'Bundle', 'no dissect() that compares the input with its re-encoding', 'a bundle block in a non-deterministic encoding (bignum for a small integer) decodes to the signed values and '
+                   're-encodes as the signed octets: a 16-bit burst passes the CRC check', tree.klass(BUNDLE, 'Bundle'))
+    else:
+        fb = FuncView(tree, BUNDLE, 'Bundle.dissect')
+        sp = fb.func.args.args[1].arg
+        checks = []
+        for n in fb.cfg.nodes:
+            if n.kind != 'cond' or not isinstance(n.ast, ast.Compare) or len(n.ast.ops) != 1 or not isinstance(n.ast.ops[0], (ast.NotEq, ast.Eq)):
+                continue
+            sides = [n.ast.left, n.ast.comparators[0]]
+            if any(src(x) == sp for x in sides):
+                other = [x for x in sides if src(x) != sp][0]
+                full = fb.value_at(other, n.ast, depth=3) if isinstance(other, ast.Name) else other
+                defs = [src(v) for (st_, v) in fb.reaching_defs(other.id, n.ast) if v is not None and isinstance(v, ast.AST)] if isinstance(other, ast.Name) else [src(full)]
+                if defs and all('cbor2.dumps(' in d for d in defs):
+                    checks.append(n)
+        raises = [r for r in walk_local(fb.func) if isinstance(r, ast.Raise) and any(('!= ' + sp in t and p_ is True) or ('== ' + sp in t and p_ is False) for (t, p_) in (fb.facts(r) or ()))]
+        deleg = [c for c in calls_in(fb.func) if isinstance(c.func, ast.Attribute) and c.func.attr == 'dissect' and c is not fb.func]
+        if checks and raises and deleg and all(fb.cfg.must_pass(fb.cfg.entry, fb.node(d), set(checks) | {n for n in fb.cfg.nodes if n.kind == 'cond' and 'isinstance({}, bytes)'.format(sp) in src(n.ast)}, include_exc=False)[0] for d in deleg):
+            ob.site(BUNDLE, raises[0], 'encoded input that is not the deterministic encoding of its items is refused before dissection')
+        else:
+            ob.violate(BUNDLE, fb.qual, 'input vs. cbor2.dumps() of the decoded items', 'the bundle decoder does not compare its input with the encoding of the items decoded from it: another encoding of the '
+                       'same values (tag 2 bignum, non-shortest head) decodes alike and re-encodes as the octets the CRC was computed over', fb.func)
     # ... and only the one spelling the encoder produces: a decoded EID is returned only behind the comparison of its
     # re-encoding with the item that arrived (surplus array members, "none" as text, a node name without its slash all decode
     # to an EID that is sent on as other octets -- the octets the sender's CRC was computed over)
